@@ -1,0 +1,65 @@
+//! Observation hooks for external verification tooling.
+//!
+//! Only compiled with the cargo feature `verif-hooks`; nothing in here changes
+//! the behaviour of the crate unless a seed override is installed.
+use std::cell::RefCell;
+
+/// One event of the random number generator of an evaluation context
+#[derive(Debug, Clone, Copy, PartialEq, Eq)]
+pub enum RngEvent {
+    /// `random(n)` is about to draw with bound `n`
+    Bound(i64),
+    /// A value was drawn
+    Draw(i64),
+    /// The generator was re-seeded by `resetRandom`
+    Reset,
+}
+
+thread_local! {
+    static RNG_LOG: RefCell<Vec<RngEvent>> = const { RefCell::new(Vec::new()) };
+    static SEED_OVERRIDE: RefCell<Option<u64>> = const { RefCell::new(None) };
+}
+
+pub(crate) fn log_event(event: RngEvent) {
+    RNG_LOG.with(|log| log.borrow_mut().push(event));
+}
+
+pub(crate) fn seed_override() -> Option<u64> {
+    SEED_OVERRIDE.with(|seed| *seed.borrow())
+}
+
+/// Use `seed` (instead of entropy from the OS) for every evaluation context
+/// created on this thread from now on; `None` restores the normal behaviour.
+pub fn set_seed_override(seed: Option<u64>) {
+    SEED_OVERRIDE.with(|s| *s.borrow_mut() = seed);
+}
+
+/// Return and clear this thread's log of generator events
+pub fn take_rng_log() -> Vec<RngEvent> {
+    RNG_LOG.with(|log| std::mem::take(&mut *log.borrow_mut()))
+}
+
+/// Tokens `(kind, start, end)` produced by the statement lexer for `input`,
+/// including the final `Eof` token
+pub fn lex_body(input: &str) -> Vec<(String, usize, usize)> {
+    use logos::Logos;
+    crate::lexer::TokenIter::from(crate::lexer::TokenKind::lexer(input))
+        .map(|tok| (format!("{:?}", tok.kind), tok.span.start, tok.span.end))
+        .collect()
+}
+
+/// Tokens `(kind, start, end)` produced by the header lexer for `input`
+pub fn lex_header(input: &str) -> Vec<(String, usize, usize)> {
+    use logos::Logos;
+    let mut lexer = crate::lexer::HeaderTokenKind::lexer(input);
+    let mut result = vec![];
+    while let Some(tok) = lexer.next() {
+        let kind = match tok {
+            Ok(kind) => format!("{kind:?}"),
+            Err(_) => String::from("Error"),
+        };
+        let span = lexer.span();
+        result.push((kind, span.start, span.end));
+    }
+    result
+}
